@@ -6,7 +6,8 @@
 # everything under /verif/seeded/<ID>_<k>/.  Scratch dirs are removed at the end.
 set -u
 id="$1"; k="$2"; tier="${3:-quick}"
-src=/tmp/wt/$id/out
+wt="${SEED_WT:-/tmp/wt}"; tag="${SEED_TAG:-}"
+src=$wt/$id/out
 [ -f "$src/patch_$k.diff" ] || { echo "no patch $src/patch_$k.diff"; exit 2; }
 work=$(mktemp -d /tmp/seed_${id}_${k}.XXXX)
 cleanup() { git -C /repo worktree remove --force "$work/repo" >/dev/null 2>&1; rm -rf "$work"; }
@@ -21,7 +22,7 @@ cp "$demo" tests/ 2>/dev/null
 dname=$(basename "$demo" .rs)
 if cargo test --offline --test "$dname" >"$work/demo_orig.log" 2>&1; then echo "demo_on_original=pass" >> $res; else echo "demo_on_original=FAIL" >> $res; fi
 # 2. with the change: compiles, existing tests pass, demo fails
-if ! git apply "$src/patch_$k.diff" 2>"$work/apply.log"; then echo "patch_applies=NO" >> $res; cat $res; mkdir -p /verif/seeded/${id}_$k; cp $res /verif/seeded/${id}_$k/REJECTED.txt; exit 3; fi
+if ! git apply "$src/patch_$k.diff" 2>"$work/apply.log"; then echo "patch_applies=NO" >> $res; cat $res; mkdir -p /verif/seeded/${id}_${tag}$k; cp $res /verif/seeded/${id}_${tag}$k/REJECTED.txt; exit 3; fi
 echo "patch_applies=yes" >> $res
 rm -f tests/$dname.rs
 if cargo test --offline --no-fail-fast >"$work/tests_mut.log" 2>&1; then echo "existing_tests_with_change=pass" >> $res; else echo "existing_tests_with_change=FAIL" >> $res; fi
@@ -47,7 +48,7 @@ echo "caught_by=[$caught ] silent=[$silent ] tier=$tier" >> $res
 target_caught=no; echo " $caught " | grep -q " $id " && target_caught=yes
 echo "target_property_check_catches=$target_caught" >> $res
 # 4. store
-dst=/verif/seeded/${id}_$k; mkdir -p $dst
+dst=/verif/seeded/${id}_${tag}$k; mkdir -p $dst
 cp "$src/patch_$k.diff" $dst/patch.diff; cp "$demo" $dst/; cp "$src/meta_$k.json" $dst/meta_agent.json 2>/dev/null
 cp $res $dst/confirmation.txt
 mkdir -p $dst/replays; cp "$work"/vd/replays/*.replay $dst/replays/ 2>/dev/null
